@@ -1,3 +1,5 @@
+import DSV.Proofs.Skeleton
+import DSV.Generated.Skeleton
 import DSV.Proofs.GcRace
 /-!
 C06 — garbage collection is safe against concurrently committing transactions.
@@ -79,3 +81,32 @@ example :
   decide
 
 end DSV.GcRace
+
+/-! ## Tie to the current source: the order of the collector's reads and of the transaction's marker protocol -/
+namespace DSV.Src.C06
+open DSV.Skel DSV.Generated.Skel DSV.GcRace
+
+/-- **source_markers_first** — in the CURRENT source of `GarbageCollector.collect` the in-flight markers are loaded before
+the metadata is read (the model's `markersFirst`). -/
+theorem source_markers_first : markersFirstOf gcCollect = true := by decide
+
+/-- **gc_concurrent_safe_source** — `gc_concurrent_safe` with the read order READ OFF the current source. -/
+theorem gc_concurrent_safe_source (u : List Nat) (files : Nat → Option FileSt) (committed : List Nat)
+    (h0 : InitOk files committed u) (s : Sys) (hr : Reach (markersFirstOf gcCollect) u files committed s) :
+    ∀ f ∈ s.committed, f ∉ s.deleted ∧ ∃ st, s.files f = some st ∧ st.exists_ = true := by
+  rw [source_markers_first] at hr
+  exact gc_concurrent_safe u files committed h0 s hr
+
+/-- **source_marker_before_file** — `append_data` registers the marker before it writes the data file and queues the file
+only afterwards; `append_files` registers the marker before it looks at / persists the pre-built file. -/
+theorem source_marker_before_file :
+    project txVoc txAppendData = ["marker", "write", "queue"] ∧
+    project txVoc txAppendFiles = ["marker", "exists", "persist", "schema", "queue"] := by decide
+
+/-- **source_unmark_after_commit** — `Transaction.commit` calls the marker-removing `_finish_committed` only after the commit
+call returned (or for an empty transaction, before any), never in a failure handler. -/
+theorem source_unmark_after_commit :
+    dedupAdj ((project txVoc txCommit).filter (fun x => x == "commit" || x == "finish")) = ["finish", "commit", "finish"] ∧
+    ((project txVoc txCommit).dropWhile (· != "onConflict")).contains "finish" = false := by decide
+
+end DSV.Src.C06
